@@ -25,7 +25,8 @@ REQUIRED_DEEP = ["fact_regex_compiled_as_ecmascript", "ecma_anchored_accepts_iff
                  "fact_fulfill_source", "fact_next_source", "fact_is_fulfilled_source", "fact_credential_map_source", "fact_new_pex_consumer_source",
                  "fact_resolve_input_descriptor_values_source",
                  "values_both_mem", "match_params_sound", "match_formats_sound", "formats_match_sound", "presenter_format_shared",
-                 "fact_presenter_build_submission_source", "fact_formats_match_source", "fact_formats_normalize_source", "fact_formats_constructors_source"]
+                 "fact_presenter_build_submission_source", "fact_formats_match_source", "fact_formats_normalize_source", "fact_formats_constructors_source",
+                 "registration_rejects_surplus", "registration_total", "fact_registration_source"]
 REQUIRED = ["pe_total_match_raw", "pe_total_build_raw", "pe_total_credentials_required_raw", "pe_total_resolve_fields_raw",
             "old_code_panics_on_nil_entry", "fact_nil_entries_checked", "pe_total_match", "pe_total_build", "pe_total_validate", "pe_total_resolve_fields",
             "match_sound", "filter_sound_and_complete",
@@ -367,7 +368,7 @@ def sr_pick_without_max(sr):
 def run(ctx):
     del ECMA_TABLE_DISAGREE[:]
     facts = ctx.facts()
-    thms = ctx.build_and_audit(["NutsProofs.Props.C12", "NutsProofs.Props.C12Ecma", "NutsProofs.Props.C12Consumer", "NutsProofs.Props.C12Formats"])
+    thms = ctx.build_and_audit(["NutsProofs.Props.C12", "NutsProofs.Props.C12Ecma", "NutsProofs.Props.C12Consumer", "NutsProofs.Props.C12Formats", "NutsProofs.Props.C12Registration"])
     for r in REQUIRED + REQUIRED_DEEP:
         if not any(t.endswith("Props." + r) for t in thms):
             ctx.oblige("thm-present:" + r, False, "theorem missing or its module does not build")
@@ -1039,7 +1040,51 @@ def run(ctx):
                 creport("C12:presenter:accepted-mapping-differs", f"verifier accepted {r.get('accepted')}, the wallet mapped {want}", k)
 
     # discovery client: Module.Search zips Match's results by index and resolves the constraint fields
-    for r in consumer_leg(DISC_PKG, DISC_HARNESS, "c12disc", "TestVerifC12Discovery", "discovery.out", 3000):
+    disc_results = consumer_leg(DISC_PKG, DISC_HARNESS, "c12disc", "TestVerifC12Discovery", "discovery.out", 3000)
+    # ---- discovery validateRegistration (PE part) against the Lean model (NutsModel/C12/Registration.lean, driver op
+    #      `registration`) + direct oracle against the pe leg's own Match result on the same wallet
+    reg = {r["n"]: r["reg"] for r in disc_results if "reg" in r and r["n"] in ops_by_n}
+    if reg:
+        r_lines, r_want = [], []
+        for k_, raw in enumerate(ops_raw):
+            if not raw:
+                continue
+            if raw.startswith('{"op":"case"') or raw.startswith('{"op":"reject"'):
+                r_lines.append(raw)
+            elif raw.startswith('{"op":"match"'):
+                o = json.loads(raw)
+                if o.get("n") in reg:
+                    r_lines.append(json.dumps({"op": "registration", "n": o["n"], "wallet": o.get("wallet", [])}))
+                    r_want.append((k_, o["n"], o.get("wallet", [])))
+        r_ops, r_model = os.path.join(out, "reg.ops.jsonl"), os.path.join(out, "reg.model.out")
+        with open(r_ops, "w") as f:
+            f.write("\n".join(r_lines) + "\n")
+        okr, errr = ctx.model("C12", r_ops, r_model)
+        ctx.oblige("model-driver-runs:registration", okr, errr[-400:])
+        r_got = [l for l in ctx.read_lines(r_model) if l.startswith("registration ")]
+        r_bad = 0
+        for (k, n_, wal), mline in zip(r_want, r_got):
+            got = reg[n_]
+            counts["registration:" + got] += 1
+            if got == "err:validity":
+                continue  # the JWT-expiry test between the two PE steps is discovery's own (C16)
+            if "registration " + got != mline:
+                r_bad += 1
+                creport("C12:registration:model-differs", f"validateRegistration = {got}, Lean model says {mline}", k)
+                continue
+            pe_line = impl[k] if k < len(impl) else ""
+            mm = re.match(r"match ok vcs=\[(.*?)\]", pe_line)
+            c_, _, _ = load_case(k)
+            names = [c_["creds"][i_]["name"] for i_ in wal if i_ < len(c_["creds"])]
+            if got == "ok" and (not mm or not set(names) <= set(mm.group(1).split(","))):
+                creport("C12:registration:surplus-credential-accepted", f"registration accepted although Match selects [{mm.group(1) if mm else pe_line[:40]}] of the presented {names}", k)
+            if got == "err:not-fulfilled" and mm and set(names) <= set(mm.group(1).split(",")):
+                creport("C12:registration:complete-presentation-refused", f"registration refused although every presented credential {names} is selected by Match", k)
+            if got == "err:match" and mm:
+                creport("C12:registration:match-error-invented", "registration says the definition is not matched although Match succeeds", k)
+        ctx.oblige("correspondence:registration-model=impl", r_bad == 0 and len(r_got) == len(r_want), f"{r_bad} of {len(r_want)} registrations differ from the model")
+        ctx.cov["registrations_vs_model"] = len(r_want)
+    for r in disc_results:
         if r["n"] not in ops_by_n:
             continue
         k, op = ops_by_n[r["n"]]
